@@ -103,4 +103,146 @@ theorem containsRegion_sound (A B : Region α) (h : A.containsRegion B = true) (
         exact (mul_self_inj n1 n2).mp this
       linarith
 
+
+/-! ## The containment test is exact
+
+`containsRegion_sound` is the direction C12 needs.  The converse holds too for the regions the
+plugin can hold (`Region.Proper`: corners ordered — which the constructor establishes,
+`mkRect_proper` — and radius non-negative): when the test answers "no" there really is a point of
+the inner region outside the outer one, so the test never refuses an update that covers the old
+region.  The witnesses are a corner of the inner rectangle, an axis-extreme point of the inner
+circle, or the point of the inner circle farthest from the outer centre. -/
+set_option linter.unusedSectionVars false
+
+/-- the regions the plugin can hold: rectangles with ordered corners (the constructor orders
+them), circles with a non-negative radius -/
+def Region.Proper : Region α → Prop
+  | .rect _ x1 y1 x2 y2 => x1 ≤ x2 ∧ y1 ≤ y2
+  | .circle _ _ _ r => 0 ≤ r
+
+theorem mkRect_proper (id : String) (a b c d : α) : Region.Proper (Region.mkRect id a b c d) := by
+  unfold Region.mkRect
+  by_cases h1 : c < a <;> by_cases h2 : d < b <;>
+    simp only [h1, h2, if_true, if_false, Region.Proper]
+  · exact ⟨h1.le, h2.le⟩
+  · exact ⟨h1.le, not_lt.mp h2⟩
+  · exact ⟨not_lt.mp h1, h2.le⟩
+  · exact ⟨not_lt.mp h1, not_lt.mp h2⟩
+
+theorem containsRegion_complete_rect (A B : Region α) (hB : Region.Proper B)
+    (hA : ∃ i x1 y1 x2 y2, A = .rect i x1 y1 x2 y2)
+    (h : A.containsRegion B = false) :
+    ∃ x y, B.containsPoint x y = true ∧ A.containsPoint x y = false := by
+  obtain ⟨i, x1, y1, x2, y2, rfl⟩ := hA
+  cases B with
+  | rect j ox1 oy1 ox2 oy2 =>
+    obtain ⟨hx, hy⟩ := hB
+    simp only [Region.containsRegion, Bool.and_eq_false_iff, decide_eq_false_iff_not, not_le] at h
+    simp only [Region.containsPoint, Bool.and_eq_true, decide_eq_true_eq, Bool.and_eq_false_iff,
+      decide_eq_false_iff_not, not_le]
+    rcases h with ((h | h) | h) | h
+    · exact ⟨ox1, oy1, ⟨⟨⟨le_refl _, hx⟩, le_refl _⟩, hy⟩, Or.inl (Or.inl (Or.inl h))⟩
+    · exact ⟨ox2, oy1, ⟨⟨⟨hx, le_refl _⟩, le_refl _⟩, hy⟩, Or.inl (Or.inl (Or.inr h))⟩
+    · exact ⟨ox1, oy1, ⟨⟨⟨le_refl _, hx⟩, le_refl _⟩, hy⟩, Or.inl (Or.inr h)⟩
+    · exact ⟨ox1, oy2, ⟨⟨⟨le_refl _, hx⟩, hy⟩, le_refl _⟩, Or.inr h⟩
+  | circle j cx cy r =>
+    have hr : 0 ≤ r := hB
+    simp only [Region.containsRegion, Bool.and_eq_false_iff, decide_eq_false_iff_not, not_le] at h
+    have inB : ∀ x y, ((x - cx) * (x - cx) + (y - cy) * (y - cy) ≤ r * r) →
+        (Region.circle j cx cy r).containsPoint x y = true := fun x y hh =>
+      (circle_contains_iff j cx cy r x y).mpr ⟨hr, hh⟩
+    simp only [Region.containsPoint, Bool.and_eq_false_iff,
+      decide_eq_false_iff_not, not_le] at inB ⊢
+    rcases h with ((h | h) | h) | h
+    · exact ⟨cx - r, cy, inB _ _ (by ring_nf; exact le_refl _), Or.inl (Or.inl (Or.inl h))⟩
+    · exact ⟨cx + r, cy, inB _ _ (by ring_nf; exact le_refl _), Or.inl (Or.inl (Or.inr h))⟩
+    · exact ⟨cx, cy - r, inB _ _ (by ring_nf; exact le_refl _), Or.inl (Or.inr h)⟩
+    · exact ⟨cx, cy + r, inB _ _ (by ring_nf; exact le_refl _), Or.inr h⟩
+
+theorem cc_rect (i j : String) (cx cy r ox1 oy1 ox2 oy2 : α) (hx : ox1 ≤ ox2) (hy : oy1 ≤ oy2)
+    (h : (Region.circle i cx cy r).containsRegion (.rect j ox1 oy1 ox2 oy2) = false) :
+    ∃ x y, (Region.rect j ox1 oy1 ox2 oy2).containsPoint x y = true ∧
+      (Region.circle i cx cy r).containsPoint x y = false := by
+  simp only [Region.containsRegion, Bool.and_eq_false_iff] at h
+  have inB : ∀ x y, ox1 ≤ x → x ≤ ox2 → oy1 ≤ y → y ≤ oy2 →
+      (Region.rect j ox1 oy1 ox2 oy2).containsPoint x y = true := by
+    intro x y a b c d
+    simp only [Region.containsPoint, Bool.and_eq_true, decide_eq_true_eq]
+    exact ⟨⟨⟨a, b⟩, c⟩, d⟩
+  rcases h with ((h | h) | h) | h
+  · exact ⟨ox1, oy1, inB _ _ (le_refl _) hx (le_refl _) hy, h⟩
+  · exact ⟨ox2, oy1, inB _ _ hx (le_refl _) (le_refl _) hy, h⟩
+  · exact ⟨ox2, oy2, inB _ _ hx (le_refl _) hy (le_refl _), h⟩
+  · exact ⟨ox1, oy2, inB _ _ (le_refl _) hx hy (le_refl _), h⟩
+
+theorem cc_circle (i j : String) (cx cy r ocx ocy orr : α) (ho : 0 ≤ orr)
+    (h : (Region.circle i cx cy r).containsRegion (.circle j ocx ocy orr) = false) :
+    ∃ x y, (Region.circle j ocx ocy orr).containsPoint x y = true ∧
+      (Region.circle i cx cy r).containsPoint x y = false := by
+  simp only [Region.containsRegion, decide_eq_false_iff_not, not_le] at h
+  have hd0 := MathSpec.hypot_nonneg (cx - ocx) (cy - ocy)
+  have hds := MathSpec.hypot_sq (cx - ocx) (cy - ocy)
+  generalize MathOps.hypot (cx - ocx) (cy - ocy) = d at h hd0 hds
+  have notA : ∀ x y, (0 ≤ r → r * r < (x - cx) * (x - cx) + (y - cy) * (y - cy)) →
+      (Region.circle i cx cy r).containsPoint x y = false := by
+    intro x y hh
+    rw [Bool.eq_false_iff]; intro hc
+    rw [circle_contains_iff] at hc
+    exact absurd hc.2 (not_le.mpr (hh hc.1))
+  rcases eq_or_lt_of_le hd0 with hz | hpos
+  · -- same centre
+    refine ⟨ocx + orr, ocy, (circle_contains_iff _ _ _ _ _ _).mpr ⟨ho, by ring_nf; exact le_refl _⟩,
+      notA _ _ (fun hr => ?_)⟩
+    have e : (cx - ocx) * (cx - ocx) + (cy - ocy) * (cy - ocy) = 0 := by rw [← hds, ← hz]; ring
+    have e1 : cx - ocx = 0 := by nlinarith [mul_self_nonneg (cx - ocx), mul_self_nonneg (cy - ocy), mul_self_eq_zero.mp (by nlinarith [mul_self_nonneg (cx - ocx), mul_self_nonneg (cy - ocy)] : (cx - ocx) * (cx - ocx) = 0)]
+    have e2 : cy - ocy = 0 := mul_self_eq_zero.mp (by nlinarith [mul_self_nonneg (cx - ocx), mul_self_nonneg (cy - ocy)])
+    have : ocx + orr - cx = orr := by linarith
+    have : ocy - cy = 0 := by linarith
+    rw [‹ocx + orr - cx = orr›, ‹ocy - cy = 0›]
+    have : r < orr := by linarith
+    nlinarith
+  · have hne : d ≠ 0 := ne_of_gt hpos
+    let k := orr / d
+    have hk : k * d = orr := div_mul_cancel₀ orr hne
+    refine ⟨ocx + k * (ocx - cx), ocy + k * (ocy - cy),
+      (circle_contains_iff _ _ _ _ _ _).mpr ⟨ho, ?_⟩, notA _ _ (fun hr => ?_)⟩
+    · have : (ocx + k * (ocx - cx) - ocx) * (ocx + k * (ocx - cx) - ocx) +
+          (ocy + k * (ocy - cy) - ocy) * (ocy + k * (ocy - cy) - ocy) = (k * d) * (k * d) := by
+        have : (k * d) * (k * d) = k * k * ((cx - ocx) * (cx - ocx) + (cy - ocy) * (cy - ocy)) := by
+          rw [← hds]; ring
+        rw [this]; ring
+      rw [this, hk]
+    · have : (ocx + k * (ocx - cx) - cx) * (ocx + k * (ocx - cx) - cx) +
+          (ocy + k * (ocy - cy) - cy) * (ocy + k * (ocy - cy) - cy) = (d + k * d) * (d + k * d) := by
+        have : (d + k * d) * (d + k * d) = (1 + k) * (1 + k) * ((cx - ocx) * (cx - ocx) + (cy - ocy) * (cy - ocy)) := by
+          rw [← hds]; ring
+        rw [this]; ring
+      rw [this, hk]
+      have : r < d + orr := h
+      nlinarith
+
+/-- all four type pairs: a negative answer has a witness -/
+theorem containsRegion_complete (A B : Region α) (hB : Region.Proper B)
+    (h : A.containsRegion B = false) :
+    ∃ x y, B.containsPoint x y = true ∧ A.containsPoint x y = false := by
+  cases A with
+  | rect i x1 y1 x2 y2 => exact containsRegion_complete_rect _ B hB ⟨i, x1, y1, x2, y2, rfl⟩ h
+  | circle i cx cy r =>
+    cases B with
+    | rect j ox1 oy1 ox2 oy2 => exact cc_rect i j cx cy r ox1 oy1 ox2 oy2 hB.1 hB.2 h
+    | circle j ocx ocy orr => exact cc_circle i j cx cy r ocx ocy orr hB h
+
+/-- hence the test decides geometric containment exactly -/
+theorem containsRegion_iff (A B : Region α) (hB : Region.Proper B) :
+    A.containsRegion B = true ↔ ∀ x y, B.containsPoint x y = true → A.containsPoint x y = true := by
+  constructor
+  · exact fun h x y hp => containsRegion_sound A B h x y hp
+  · intro hall
+    by_contra hc
+    obtain ⟨x, y, hb, ha⟩ := containsRegion_complete A B hB (by simpa using hc)
+    rw [hall x y hb] at ha; exact Bool.noConfusion ha
+
+/-- the hypothesis is met by what the API constructs -/
+example (id : String) (a b c d : α) : Region.Proper (Region.mkRect id a b c d) := mkRect_proper id a b c d
+
 end ERP.C17
